@@ -532,6 +532,8 @@ func Run(c *core.Ctx) {
 // Explore is the body shared by C04 and the delta half of C13 (the same traces carry the delta every Merge returned).
 func Explore(c *core.Ctx, what string, light bool) int64 {
 	Light = light
+	// the merge algebra for unbounded timestamps (TLAPS): join laws, delta exactness
+	c.Prove("CrdtAlgebra")
 	rng := rand.New(rand.NewSource(c.Seed))
 	walks, keys, keysTLA, maxTime := Generate(c, rng)
 	var traces []*core.Trace
@@ -574,7 +576,7 @@ func Explore(c *core.Ctx, what string, light bool) int64 {
 	c.Set("implementations", Kinds)
 	c.Assume = append(c.Assume, "crdt.Now is driven by the model's clock (single reading per Add/Del; the op payload of Notify gets its own reading)",
 		"payload bytes of entries are not compared (the statement speaks of entries, times and activeness)",
-		"timestamps 1..3, 2 keys, 3 replicas; unbounded timestamps are covered by the TLAPS lemmas in CrdtAlgebra.tla when proved")
+		"exhaustive TLC results are for timestamps 1..3, 2 keys, 3 replicas; the value-level merge laws are proved for all naturals by tlapm (CrdtAlgebra.tla, counted under obligations / discharged)")
 	return nontrivial
 }
 
